@@ -86,25 +86,33 @@ impl<F: TryFuture> Future for TryJoinAll<F> {
 
     fn poll(mut self: Pin<&mut Self>, cx: &mut Context<'_>) -> Poll<Self::Output> {
         loop {
-            match self.as_mut().queue.poll_inner(cx) {
+            match self.as_mut().queue.poll_inner_no_remove(cx, F::poll) {
                 Poll::Ready(Some((i, Ok(t)))) => {
+                    // store the output before the finished future is dropped: should its
+                    // destructor panic, the vacated slot still has its output (see `Drop`)
                     self.output[i].write(t);
+                    self.queue.tasks.remove(i);
                 }
                 Poll::Ready(Some((i, Err(e)))) => {
                     // The error is the final result: drop the outputs collected so far and
                     // cancel the remaining futures, so that a later poll can never observe
                     // the output buffer with the failed slot left uninitialised.
+                    // Take the buffer away first: whatever unwinds below, no later poll and
+                    // no `Drop` will look at it again (what is left in it is leaked).
                     let this = &mut *self;
-                    for (j, out) in this.output.iter_mut().enumerate() {
+                    let mut output =
+                        core::mem::replace(&mut this.output, Vec::new().into_boxed_slice());
+                    for (j, out) in output.iter_mut().enumerate() {
                         if j != i && this.queue.tasks.get(j).is_none() {
-                            // SAFETY: slot `j` is vacant and did not fail, so its future
-                            // completed with `Ok` and its output was written to `output[j]`.
+                            // SAFETY: slot `j` is vacant and is not the failed one (which is
+                            // still occupied), so its future completed with `Ok` and its
+                            // output was written to `output[j]` before the slot was vacated.
                             unsafe { out.assume_init_drop() };
-                        } else {
-                            this.queue.tasks.remove(j);
                         }
                     }
-                    this.output = Vec::new().into_boxed_slice();
+                    for j in 0..output.len() {
+                        this.queue.tasks.remove(j);
+                    }
                     break Poll::Ready(Err(e));
                 }
                 Poll::Ready(None) => {
